@@ -115,9 +115,9 @@ class ElementaryFunctional(Functional):
             return x
         if shape is None:
             shape = x.shape
-        if self.dim is not None:
+        if self.dim is not None and len(self.dim) > 0:
             size = [shape[i] for i in self.dim]
-        else:
+        else:  # no or an empty dim: forward reduces over all dimensions (as torch.sum / torch.mean do)
             size = list(shape)
         return x / math.prod(size)
 
